@@ -20,6 +20,16 @@ CLAIMS = {
   "Not decided: progress as observed at run time, blocking inside the standard library, user handlers/middleware/resolvers (analysis boundary, listed in evidence). "
   "Trusted: go/types + go/ssa + CHA call resolution of x/tools v0.50.0; no reflection/unsafe/linkname in the module.",
   "DESIGN.md section 5 C06"),
+ "C03": (
+  "ownership / escape analysis over SSA (fresh / transaction-private / shared lattice with function summaries, parameter obligations, guard-sensitive phi pruning, cache-membership facts)",
+  "Decides the whole immutability discipline of the copy-on-write tree, for every function of the package and every path: each of the (currently 57) constructs that write a node, an element of a "
+  "[]*node or reorder/extend such a slice in place targets storage that is fresh or private to the running transaction; the copy-on-write search hands out only private parents; the writable cache "
+  "receives only deep-private nodes and is dropped wherever the root set escapes (commit, clone, snapshot); a write transaction never hands out its live root set; Route and root storage are written "
+  "only during construction. A new write site anywhere in the package is classified by the same rules, so 'some copy-on-write path mutates a node still reachable from an older root' is excluded "
+  "statically rather than sampled over histories.",
+  "Not decided: what lookups through a frozen tree return (matcher, C01). Assumes no unsafe/reflect/linkname writes (checked: fox does not import unsafe), node types never cross the API (checked), single-goroutine Txn use. "
+  "The analysis fails closed: unrecognised provenance is 'shared'.",
+  "DESIGN.md section 5 C03"),
  "C04": (
   "typestate / dominance analysis over SSA (guards, settle-exactly-once path sets, must-dataflow for deferred aborts) plus call-graph reachability",
   "Decides on every path of the protocol functions: the atomic pointer is stored only by the constructor and by Txn.Commit (once, guarded, with the tree the transaction built); "
